@@ -93,6 +93,9 @@ struct CancelTwin {
     /// (with `reconnect_after`) another request issued on the same handle before it is dropped
     other_op: Option<Step>,
     pub other_op_at: Option<usize>,
+    /// once the request has been taken (or completed): let this much time pass before the
+    /// connection is driven on (the keep-alive deadline falls into the gap)
+    advance_after: Option<u64>,
     tail: VecDeque<Step>,
     /// the operation that follows the request is a QoS 0 publish (written straight from scratch
     /// space, not through the outbound queue)
@@ -210,6 +213,9 @@ impl Driver for CancelTwin {
                     continue;
                 }
                 3 => {
+                    if let Some(us) = self.advance_after.take() {
+                        return Some(Step::Advance(us));
+                    }
                     if self.then_qos0 && !self.qos0_done {
                         self.qos0_done = true;
                         if v.has_handle {
@@ -325,7 +331,7 @@ impl Check for C13 {
         if tier == Tier::Quick { 300 } else { 3000 }
     }
     fn required_counters(&self) -> Vec<&'static str> {
-        vec!["twins_compared", "cancelled_and_survived", "cancelled_and_reissued", "requests_issued_with_pingreq_due", "requests_followed_by_a_qos0_publish"]
+        vec!["twins_compared", "cancelled_and_survived", "cancelled_and_reissued", "requests_issued_with_pingreq_due", "requests_followed_by_a_qos0_publish", "pingreq_due_right_after_the_request"]
     }
     fn run(&self, _workload: usize, seed: u64, _index: u64, tier: Tier, verbose: bool) -> CaseOut {
         let mut out = CaseOut::default();
@@ -368,10 +374,16 @@ impl Check for C13 {
         // that the cancelled call is (also) in the middle of keep-alive traffic
         // (not while a PINGREQ is unanswered: the peer would look dead by the time of the request)
         let ping_open = plog.probes.iter().rev().nth(1).and_then(|p| p.snap.as_ref()).is_some_and(|s| s.ping_timeout.is_some());
+        let mut advance_after: Option<u64> = None;
         if cfg.keepalive > 0 && !ping_open && rng.chance(1, 2) {
             let eff = cfg.keepalive as u64 * 1_000_000;
             prefix.push(Step::Advance(eff - 5_000_000u64.min(eff / 2) + 1));
             out.count("requests_issued_with_pingreq_due", 1);
+        } else if cfg.keepalive > 0 && !ping_open && rng.chance(1, 2) {
+            // ... or right after it (a cancelled request may be in the middle of its packet then)
+            let eff = cfg.keepalive as u64 * 1_000_000;
+            advance_after = Some(eff - 5_000_000u64.min(eff / 2) + 1);
+            out.count("pingreq_due_right_after_the_request", 1);
         }
         // one disconnect request in three is followed by "drop the handle, connect again, poll"
         let reconnect_after = matches!(request, Step::Disconnect(_)) && rng.chance(1, 3);
@@ -404,7 +416,7 @@ impl Check for C13 {
         let other_at = std::cell::Cell::new(None::<usize>);
         let skip_flag = std::cell::Cell::new(false);
         let run = |cancels: Vec<usize>| -> (RunLog, Shared, Vec<usize>) {
-            let mut d = CancelTwin { prefix: prefix.clone().into(), request: request.clone(), cancels: cancels.into(), stage: 0, drain_left: 0, reissued: false, request_ops: vec![], poll_before_reissue: false, polled_before_reissue: false, reconnect_after, skip_request: skip_flag.get(), other_op: other_op.clone(), other_op_at: None, tail: VecDeque::new(), then_qos0, qos0_done: false };
+            let mut d = CancelTwin { prefix: prefix.clone().into(), request: request.clone(), cancels: cancels.into(), stage: 0, drain_left: 0, reissued: false, request_ops: vec![], poll_before_reissue: false, polled_before_reissue: false, reconnect_after, skip_request: skip_flag.get(), other_op: other_op.clone(), other_op_at: None, advance_after, tail: VecDeque::new(), then_qos0, qos0_done: false };
             let (log, world) = run_case(&cfg, seed, &mut d, prefix.len() + 400);
             polled_flag.set(d.polled_before_reissue);
             other_at.set(d.other_op_at);
@@ -543,7 +555,17 @@ impl Check for C13 {
                 if let Some(msg) = bad {
                     out.violations.push(viol("C13", "C13/disconnect/poll-after-cancelled-disconnect", format!("request disconnect cancelled at await {:?}, then poll(), then disconnect(): {}", cancels, msg)));
                 }
-            } else if let Some((what, msg)) = diff(&a_obs, &b_obs) {
+            } else if let Some((what, msg)) = {
+                // with the keep-alive deadline falling right behind the request, a PINGREQ goes out
+                // before a queued packet of which no byte has been written yet, and after one
+                // that is in progress: its position is not compared, everything else is
+                if advance_after.is_some() {
+                    let strip = |o: &Observed| Observed { packets: o.packets.iter().map(|c| c.iter().filter(|p| p.first() != Some(&0xC0)).cloned().collect()).collect(), dangling: o.dangling.clone(), delivered: o.delivered.clone() };
+                    diff(&strip(&a_obs), &strip(&b_obs))
+                } else {
+                    diff(&a_obs, &b_obs)
+                }
+            } {
                 let partial = bops.iter().any(|o| blog.ops[*o].outcome == Outcome::Cancelled && blog.ops[*o].out_after > blog.ops[*o].out_before);
                 let sig = if kind == "disconnect" {
                     format!("C13/disconnect/{}", if partial { "cancelled-after-bytes-written" } else { what.as_str() })
